@@ -109,7 +109,13 @@ class SigWorld(HistoryWorld):
         br = random.Random(cfg['blk_seed'])
         st.blk = BlockIdExt(-1, -2 ** 63, br.getrandbits(31), bytes(br.getrandbits(8) for _ in range(32)), bytes(br.getrandbits(8) for _ in range(32)))
         st.other = BlockIdExt(-1, -2 ** 63, br.getrandbits(31), bytes(br.getrandbits(8) for _ in range(32)), bytes(br.getrandbits(8) for _ in range(32)))
-        st.nodes = [ValidatorDescr('validator', SigPubKey(bytes(k.verify_key)), w) for k, w in zip(st.keys, st.weights)]
+        # half the sets are in the validator_addr form (each member also has an ADNL address - another 256-bit name for the same
+        # validator, which is NOT the id signatures are filed under)
+        st.adnl = [hashlib.sha256(b'adnl' + bytes(k.verify_key)).digest() for k in st.keys]
+        if cfg['key_seed'] & 1:
+            st.nodes = [ValidatorDescr('validator_addr', SigPubKey(bytes(k.verify_key)), w, a) for k, w, a in zip(st.keys, st.weights, st.adnl)]
+        else:
+            st.nodes = [ValidatorDescr('validator', SigPubKey(bytes(k.verify_key)), w) for k, w in zip(st.keys, st.weights)]
         st.arrived = []
         st.phase = 0
         st.queue = []
@@ -164,6 +170,12 @@ class SigWorld(HistoryWorld):
             ctx.fault('relay-repeats-signer')
             for _ in range(rng.choice([2, 3, 7])):
                 sim.after(rng.randrange(8), net.send, 'collector', b'', {'op': {'op': 'arrive', 'v': i, 'kind': 'valid', 'bit': 0, 'spell': self._spell(rng, cfg, ctx)}})
+        if n and rng.random() < 0.12:
+            # a relay files one member's genuine signature under that member's ADNL address instead of its key hash (often next to
+            # the properly filed one): that name is not a member id, whatever the descriptor form
+            i = rng.randrange(n)
+            ctx.fault('relay-names-signer-by-its-adnl-address')
+            sim.after(rng.randrange(8), net.send, 'collector', b'', {'op': {'op': 'arrive', 'v': i, 'kind': 'named-by-adnl-addr', 'bit': 0, 'spell': 'lower'}})
         sim.run()
         st.queue.extend(arrivals)
 
@@ -206,6 +218,8 @@ class SigWorld(HistoryWorld):
             b = bytearray(sig)
             b[(op['bit'] // 8) % 64] ^= 0x80 >> (op['bit'] % 8)
             sig = bytes(b)
+        if kind == 'named-by-adnl-addr':
+            node_id = st.adnl[op['v'] % len(st.keys)]
         if kind == 'corrupt-id':
             b = bytearray(node_id)
             b[(op['bit'] // 8) % 32] ^= 0x80 >> (op['bit'] % 8)
@@ -232,7 +246,7 @@ class SigWorld(HistoryWorld):
             return 'must-raise', 'empty-validator-set'
         bad = [s for s in sigs if s['_kind'] != 'valid']
         if bad:
-            return 'must-raise', {'other-block': 'invalid-signature', 'corrupt': 'invalid-signature', 'corrupt-id': 'unknown-signer', 'foreign': 'unknown-signer',
+            return 'must-raise', {'other-block': 'invalid-signature', 'corrupt': 'invalid-signature', 'corrupt-id': 'unknown-signer', 'foreign': 'unknown-signer', 'named-by-adnl-addr': 'signer-named-by-its-adnl-address',
                                   'wrong-length': 'signature-field-not-64-bytes', 'smuggled-prefix': 'signature-over-other-message-with-prefix-in-field'}[bad[0]['_kind']]
         signers = [s['_v'] for s in sigs]
         distinct = set(signers)
@@ -369,7 +383,7 @@ DEVIATIONS = ['wrong-expected-hash', 'flip-data-bit', 'change-bit-length', 'swap
               'root-ordinary', 'root-pruned', 'root-merkle-update', 'transit-bitflip']
 ACCOUNT_DEVIATIONS = ['claim-other-cell', 'claim-pruned-carrying-hash', 'claim-skeleton-with-pruned-children', 'wrong-block-hash', 'other-address',
                       'flip-data-bit', 'substitute-pruned-hash', 'swap-refs', 'root-ordinary', 'transit-bitflip', 'state-from-other-block',
-                      'missing-root', 'roots-swapped', 'root-merkle-update', 'claim-neighbouring-reference']
+                      'missing-root', 'roots-swapped', 'root-merkle-update', 'claim-neighbouring-reference', 'path-to-account-pruned']
 
 
 class ProofSt:
@@ -566,7 +580,7 @@ class ProofWorld(HistoryWorld):
     def q_generic(self, st, op, ctx):
         dev = op['dev']
         dk = dev['kind'] if dev else None
-        if dk in ('wrong-block-hash', 'other-address', 'claim-other-cell', 'claim-pruned-carrying-hash', 'claim-skeleton-with-pruned-children', 'state-from-other-block',
+        if dk in ('wrong-block-hash', 'other-address', 'path-to-account-pruned', 'claim-other-cell', 'claim-pruned-carrying-hash', 'claim-skeleton-with-pruned-children', 'state-from-other-block',
                   'missing-root', 'roots-swapped'):
             dk, dev = None, None
         tree = st.tree
@@ -658,7 +672,7 @@ class ProofWorld(HistoryWorld):
         dev = op['dev']
         dk = dev['kind'] if dev else None
         if dk in ('flip-root-hash-field', 'root-ordinary', 'root-pruned', 'root-merkle-update', 'claim-other-cell', 'claim-pruned-carrying-hash', 'claim-skeleton-with-pruned-children',
-                  'other-address', 'state-from-other-block', 'missing-root', 'roots-swapped'):
+                  'other-address', 'path-to-account-pruned', 'state-from-other-block', 'missing-root', 'roots-swapped'):
             dk, dev = None, None
         block = st.block
         expected = block.hash
@@ -786,6 +800,20 @@ class ProofWorld(HistoryWorld):
             blk_hash = bytes(b)
         elif dk == 'other-address':
             addr_key = key ^ (1 << (dev['seed'] % 256))
+        elif dk == 'path-to-account-pruned':
+            # the prover answered honestly for this account a moment ago (same process); now it sends a proof of the SAME state in
+            # which the way down to the account is pruned, with the true account state as the claim: the proof shows nothing about
+            # the account, whatever the verifier has seen before
+            try:
+                honest = self._encode([merkle_proof_of(block_child), merkle_proof_of(state_child)], op['enc_seed'])
+                okh, acl = call(lib_cell_from_rcell, acct)
+                if okh:
+                    call(check_account_proof, honest, BlockIdExt(st.wc, -2 ** 63, 7, st.block.hash, bytes(32)), Address((st.wc, key.to_bytes(32, 'big'))), acl)
+                j = 1 + dev['seed'] % len(leaf_path)
+                state_child = rc.rebuild(state_child, {leaf_path[:j]: lambda c: pruned_of(c, 1)})
+                ctx.probe('account-queried-honestly-then-with-its-path-pruned')
+            except (RCellError, Exception):
+                dk = None
         elif dk == 'state-from-other-block':
             p2 = rc.account_path(st.state2, key)
             if p2 is None:
